@@ -235,6 +235,7 @@ mod sock {
         resolvable: Arc<Mutex<HashSet<String>>>,
         agents: Arc<Mutex<Vec<AgentEnd>>>,
         dls: HashMap<u64, DlEnd>,
+        ows: HashMap<u64, DlEnd>, // send-only clients (`AttachClient::OneWay`): writer only
         task: Option<JoinHandle<()>>,
         counter: u64,
         _aux: Vec<JoinHandle<()>>,
@@ -349,6 +350,7 @@ mod sock {
                 resolvable,
                 agents,
                 dls: HashMap::new(),
+                ows: HashMap::new(),
                 task: Some(task),
                 counter: 0,
                 _aux: vec![peer_task, resolver],
@@ -443,6 +445,12 @@ mod sock {
                         let _ = w.send(m).await;
                     }
                 }
+            } else if let Some(id) = src.strip_prefix('o').and_then(|s| s.parse::<u64>().ok()) {
+                if let (Some(d), Some(m)) = (self.ows.get_mut(&id), Self::request(kind, node, lane, body)) {
+                    if let Some(w) = d.writer.as_mut() {
+                        let _ = w.send(m).await;
+                    }
+                }
             } else if let Some(i) = src.strip_prefix('a').and_then(|s| s.parse::<usize>().ok()) {
                 let w = self.agents.lock().unwrap().get_mut(i).and_then(|a| a.writer.take());
                 if let (Some(mut w), Some(m)) = (w, Self::response(kind, node, lane, body)) {
@@ -519,6 +527,37 @@ mod sock {
                         format!("ok+{}", extra)
                     }
                 }
+                ["attach1", id, n, l] => {
+                    // a send-only client: only an outgoing byte channel is handed over
+                    let (Ok(id), Some(node), Some(lane)) = (id.parse::<u64>(), s(n), s(l)) else {
+                        return "bad-op".into();
+                    };
+                    let (out_tx, out_rx) = byte_channel(NonZeroUsize::new(BUF).unwrap());
+                    let (done_tx, done_rx) = oneshot::channel();
+                    let req = AttachClient::OneWay {
+                        agent_id: Uuid::from_u128(1000 + id as u128),
+                        path: Some(RelativeAddress::text(&node, &lane)),
+                        receiver: out_rx,
+                        done: done_tx,
+                    };
+                    if self.attach_tx.send(req).await.is_err() {
+                        return "closed".into();
+                    }
+                    let r = tokio::time::timeout(Duration::from_millis(200), done_rx).await;
+                    if !matches!(r, Ok(Ok(Ok(())))) {
+                        return "closed".into();
+                    }
+                    self.ows.insert(
+                        id,
+                        DlEnd { node, lane, writer: Some(FramedWrite::new(out_tx, RawRequestMessageEncoder)), reader_task: None },
+                    );
+                    let extra = self.settle(None).await;
+                    if extra == "-" {
+                        "ok".into()
+                    } else {
+                        format!("ok+{}", extra)
+                    }
+                }
                 ["in", f] => {
                     let Some(frame) = s(f) else { return "bad-op".into() };
                     let _ = self.peer_tx.write_text(frame).await;
@@ -542,6 +581,10 @@ mod sock {
                             if let Some((node, lane)) = self.dls.get(&id).map(|d| (d.node.clone(), d.lane.clone())) {
                                 self.send_from(src, "command", &node, &lane, Some(&tag)).await;
                             }
+                        } else if let Some(id) = src.strip_prefix('o').and_then(|s| s.parse::<u64>().ok()) {
+                            if let Some((node, lane)) = self.ows.get(&id).map(|d| (d.node.clone(), d.lane.clone())) {
+                                self.send_from(src, "command", &node, &lane, Some(&tag)).await;
+                            }
                         } else if let Some(i) = src.strip_prefix('a').and_then(|s| s.parse::<usize>().ok()) {
                             let node = self.agents.lock().unwrap().get(i).map(|a| a.node.clone());
                             if let Some(node) = node {
@@ -559,6 +602,10 @@ mod sock {
                                 h.abort();
                                 let _ = h.await;
                             }
+                        }
+                    } else if let Some(id) = src.strip_prefix('o').and_then(|s| s.parse::<u64>().ok()) {
+                        if let Some(d) = self.ows.get_mut(&id) {
+                            d.writer = None;
                         }
                     } else if let Some(i) = src.strip_prefix('a').and_then(|s| s.parse::<usize>().ok()) {
                         let h = {
@@ -592,8 +639,10 @@ mod sock {
             (0, i)
         } else if let Some(i) = s.strip_prefix('d').and_then(|x| x.parse::<u64>().ok()) {
             (1, i)
+        } else if let Some(i) = s.strip_prefix('o').and_then(|x| x.parse::<u64>().ok()) {
+            (2, i)
         } else {
-            (2, 0)
+            (3, 0)
         }
     }
 
@@ -1028,6 +1077,8 @@ fn gen_route_ops(rng: &mut Rng) -> Vec<String> {
     let mut resolvable: Vec<&str> = R_NODES.iter().copied().filter(|_| rng.chance(1, 2)).collect();
     ops.push(format!("agents {}", resolvable.iter().map(|n| hs(n)).collect::<Vec<_>>().join(" ")).trim().to_string());
     let mut next_dl = 0u64;
+    let mut ows: Vec<u64> = vec![]; // send-only clients attached and not detached
+    let mut next_ow = 0u64;
     let mut dls: Vec<u64> = vec![]; // attached and not detached
     let mut paths: Vec<(&str, &str)> = vec![]; // every path ever attached
     let mut n_agents_upper = 0usize; // upper bound on the number of agent channels opened so far
@@ -1053,7 +1104,13 @@ fn gen_route_ops(rng: &mut Rng) -> Vec<String> {
                 dls.push(next_dl);
                 next_dl += 1;
             }
-            22..=44 => {
+            22..=27 => {
+                // a send-only client (`AttachClient::OneWay`)
+                ops.push(format!("attach1 {} {} {}", next_ow, hs(node), hs(lane)));
+                ows.push(next_ow);
+                next_ow += 1;
+            }
+            28..=44 => {
                 // a notification from the peer
                 let kind = *rng.pick(&["linked", "synced", "unlinked", "event", "event", "event"]);
                 let body = match kind {
@@ -1087,9 +1144,18 @@ fn gen_route_ops(rng: &mut Rng) -> Vec<String> {
                 ops.push(format!("in {}", hs(&f)));
                 n_agents_upper += 1;
             }
-            67..=76 if !dls.is_empty() || n_agents_upper > 0 => {
+            67..=76 if !dls.is_empty() || n_agents_upper > 0 || !ows.is_empty() => {
                 // one message from a source
-                if !dls.is_empty() && rng.chance(1, 2) {
+                if !ows.is_empty() && rng.chance(1, 3) {
+                    let o = *rng.pick(&ows);
+                    let kind = *rng.pick(&["command", "command", "command", "link", "sync", "unlink"]);
+                    let body = if kind == "command" {
+                        hs(*rng.pick(&["1", "@remove(key:2)", "", "\"two words\"", "{a:1}"]))
+                    } else {
+                        "none".into()
+                    };
+                    ops.push(format!("send o{} {} {} {} {}", o, kind, hs(node), hs(lane), body));
+                } else if !dls.is_empty() && rng.chance(1, 2) {
                     let d = *rng.pick(&dls);
                     let kind = *rng.pick(&["link", "sync", "unlink", "command"]);
                     let body = if kind == "command" { hs(*rng.pick(&["1", "@remove(key:2)", ""])) } else { "none".into() };
@@ -1105,11 +1171,13 @@ fn gen_route_ops(rng: &mut Rng) -> Vec<String> {
                     ops.push(format!("send a{} {} {} {} {}", a, kind, hs(node), hs(lane), body));
                 }
             }
-            77..=88 if !dls.is_empty() || n_agents_upper > 0 => {
+            77..=88 if !dls.is_empty() || n_agents_upper > 0 || !ows.is_empty() => {
                 let k = rng.range(2, 9);
                 let mut srcs = vec![];
                 for _ in 0..k {
-                    if !dls.is_empty() && (n_agents_upper == 0 || rng.chance(1, 2)) {
+                    if !ows.is_empty() && (rng.chance(1, 3) || (dls.is_empty() && n_agents_upper == 0)) {
+                        srcs.push(format!("o{}", rng.pick(&ows)));
+                    } else if !dls.is_empty() && (n_agents_upper == 0 || rng.chance(1, 2)) {
                         srcs.push(format!("d{}", rng.pick(&dls)));
                     } else {
                         srcs.push(format!("a{}", rng.below(n_agents_upper.max(1) as u64)));
@@ -1117,9 +1185,13 @@ fn gen_route_ops(rng: &mut Rng) -> Vec<String> {
                 }
                 ops.push(format!("burst {}", srcs.join(" ")));
             }
-            89..=93 if !dls.is_empty() => {
+            89..=92 if !dls.is_empty() => {
                 let i = rng.below(dls.len() as u64) as usize;
                 ops.push(format!("detach d{}", dls.remove(i)));
+            }
+            93 if !ows.is_empty() => {
+                let i = rng.below(ows.len() as u64) as usize;
+                ops.push(format!("detach o{}", ows.remove(i)));
             }
             94..=96 if n_agents_upper > 0 => {
                 ops.push(format!("detach a{}", rng.below(n_agents_upper as u64)));
@@ -1136,7 +1208,7 @@ fn gen_route_ops(rng: &mut Rng) -> Vec<String> {
 }
 
 fn is_route_op(op: &str) -> bool {
-    matches!(op.split_whitespace().next(), Some("agents" | "attach" | "in" | "send" | "burst" | "detach" | "stop"))
+    matches!(op.split_whitespace().next(), Some("agents" | "attach" | "attach1" | "in" | "send" | "burst" | "detach" | "stop"))
 }
 
 fn gen_pure_case(rng: &mut Rng, t: &mut Trace) {
